@@ -315,3 +315,112 @@ def run_t8_t9(chk, repo):
         raise AnalysisError('T8: no reset of a compartment attribute to a constant found in pharmpy.modeling')
     from rules.C10 import closed_protection_sets
     closed_protection_sets(chk, T9, repo)
+    run_t10(chk, repo)
+
+
+def run_t10(chk, repo):
+    """a feature setter reached with a model without ODE system refuses with the documented error (get_and_check_odes),
+    it does not trip over `assert isinstance(odes, CompartmentalSystem)`"""
+    from sa import guards as G_
+    T10 = chk.rule('T10', 'in the feature setters (and the helpers they call) an `assert` on the ODE system read from '
+                          'model.statements.ode_system is preceded by get_and_check_odes, a detector that was true, or a None test',
+                   floor=3)
+    om = repo.module(ODES)
+    funcs = {k: f for k, f in dict.items(om.functions) if f.cls is None and f.parent is None}
+    callers = {}
+    for name, f in funcs.items():
+        for c in calls_in(f.node):
+            callee = dotted(c.func)
+            if callee in funcs and callee != name:
+                callers.setdefault(callee, []).append((f, c))
+    cfgs = {}
+
+    def cfg_of(f):
+        if f.name not in cfgs:
+            cfgs[f.name] = CFG(f.node)
+        return cfgs[f.name]
+
+    def detector_true(e):
+        if isinstance(e, ast.Call) and (dotted(e.func) or '').startswith('has_'):
+            return True
+        return None
+
+    def protected(f, nid, var=None):
+        cfg = cfg_of(f)
+        for d in cfg.nodes.values():
+            if d.ast is None or d.id == nid or isinstance(d.ast, (ast.FunctionDef, ast.ClassDef)):
+                continue
+            root = d.ast.iter if d.kind == 'for' else d.ast
+            if d.kind in ('stmt', 'test', 'return', 'for') and any(
+                    isinstance(c, ast.Call) and dotted(c.func) == 'get_and_check_odes' for c in ast.walk(root)) \
+                    and cfg.dominates(d.id, nid):
+                return f'after {d.text()[:50]}'
+        g = G_.guarded(cfg, nid, detector_true)
+        if g:
+            return f'under {g[0][0].text()[:50]}'
+        if var:
+            def not_none(e):
+                if isinstance(e, ast.Compare) and len(e.ops) == 1 and unparse(e.left) == var \
+                        and isinstance(e.comparators[0], ast.Constant) and e.comparators[0].value is None:
+                    return isinstance(e.ops[0], ast.IsNot) if isinstance(e.ops[0], (ast.Is, ast.IsNot)) else None
+                return None
+            g = G_.guarded(cfg, nid, not_none)
+            if g:
+                return f'under {g[0][0].text()[:50]}'
+        return None
+
+    def reaches_unprotected(f, nid, var, depth=3, trail=()):
+        """a path from a public setter to this node on which nothing established that the model has an ODE system"""
+        if protected(f, nid, var):
+            return None
+        if not f.name.startswith('_'):
+            return (f.name,) + trail
+        if depth == 0:
+            return None
+        for caller, call in callers.get(f.name, []):
+            cn = reach_node(caller, call)
+            if cn is None:
+                continue
+            r = reaches_unprotected(caller, cn, None, depth - 1, (f.name,) + trail)
+            if r:
+                return r
+        return None
+
+    def reach_node(f, sub):
+        from sa import reach
+        return reach.node_containing(cfg_of(f), sub)
+    n = 0
+    for name, f in sorted(funcs.items()):
+        cfg = cfg_of(f)
+        # locals bound to <x>.ode_system
+        ode_vars = {a.targets[0].id for a in walk_no_nested(f.node) if isinstance(a, ast.Assign)
+                    and isinstance(a.targets[0], ast.Name) and isinstance(a.value, ast.Attribute) and a.value.attr == 'ode_system'}
+        for nd in cfg.nodes.values():
+            a = nd.ast
+            if nd.kind != 'stmt' or not isinstance(a, ast.Assert):
+                continue
+            t = a.test
+            var = None
+            if isinstance(t, ast.Call) and dotted(t.func) == 'isinstance' and len(t.args) == 2 \
+                    and isinstance(t.args[0], ast.Name) and unparse(t.args[1]) == 'CompartmentalSystem':
+                var = t.args[0].id
+            elif isinstance(t, ast.Compare) and isinstance(t.left, ast.Name) and len(t.ops) == 1 \
+                    and isinstance(t.ops[0], ast.IsNot) and isinstance(t.comparators[0], ast.Constant) \
+                    and t.comparators[0].value is None:
+                var = t.left.id
+            if var is None or var not in ode_vars:
+                continue
+            n += 1
+            why = protected(f, nd.id, var)
+            path = None if why else reaches_unprotected(f, nd.id, var)
+            setters = [p for p in (path or ()) if p.startswith(('set_', 'add_', 'remove_'))]
+            chk.instance(T10, f'{name}: `{nd.text()[:60]}` {why or ("reached from " + " -> ".join(path) if path else "not reached from a public function unprotected")}')
+            if path and setters:
+                chk.violation(T10, om.rel, name, nd.text()[:80],
+                              f'reached from {" -> ".join(path)} without anything having established that the model has an ODE '
+                              f'system: a model without one fails with AssertionError where the sibling setters refuse with '
+                              f'the documented "has no ODE system" error', line=nd.line,
+                              witness='a $PRED model (tests/testdata/nonmem/models/minimal_missing.mod): '
+                                      'set_michaelis_menten_elimination(model) raises AssertionError')
+    if n == 0:
+        raise AnalysisError('T10: no assert on an ODE system found in modeling/odes.py (anchor moved)')
